@@ -40,6 +40,8 @@ struct Runtime {
   std::vector<uint64_t> events;
   std::vector<std::vector<Preemption>> perTask;  // sorted by `at`
   std::vector<size_t> nextPre;
+  std::vector<uint64_t> quantumLeft;  // per task: events until it hands the baton back (0: none)
+  std::vector<int> giveBackTo;
   std::vector<TaskReport>* reports = nullptr;
   bool record = false;
   bool parked = false;
@@ -99,10 +101,21 @@ static void onGuard(uint32_t id) {
     (*rt->reports)[size_t(me)].guardSeq.push_back(id);
   if (!rt->parked)
     return;
+  if (rt->quantumLeft[size_t(me)] && --rt->quantumLeft[size_t(me)] == 0) {
+    int back = rt->giveBackTo[size_t(me)];
+    {
+      std::lock_guard<std::mutex> lk(rt->m);
+      if (back < 0 || back >= rt->ntasks || rt->done[size_t(back)] || back == me)
+        back = -1;
+    }
+    if (back >= 0)
+      handOver(*rt, me, back);
+  }
   auto& list = rt->perTask[size_t(me)];
   size_t& ix = rt->nextPre[size_t(me)];
   if (ix < list.size() && list[ix].at == n) {
     int to = list[ix].to;
+    uint64_t quantum = list[ix].quantum;
     ix++;
     while (ix < list.size() && list[ix].at == n)
       ix++;
@@ -110,8 +123,11 @@ static void onGuard(uint32_t id) {
       std::lock_guard<std::mutex> lk(rt->m);
       if (to < 0 || to >= rt->ntasks || rt->done[size_t(to)] || to == me)
         to = nextLive(*rt, me);
-      if (to >= 0)
+      if (to >= 0) {
         rt->fired++;
+        rt->quantumLeft[size_t(to)] = quantum;
+        rt->giveBackTo[size_t(to)] = me;
+      }
     }
     handOver(*rt, me, to);
   }
@@ -159,6 +175,8 @@ Result runParked(const std::vector<std::function<void()>>& tasks, const std::vec
   rt.events.assign(tasks.size(), 0);
   rt.perTask.assign(tasks.size(), {});
   rt.nextPre.assign(tasks.size(), 0);
+  rt.quantumLeft.assign(tasks.size(), 0);
+  rt.giveBackTo.assign(tasks.size(), -1);
   for (auto& p : schedule)
     if (p.task >= 0 && p.task < rt.ntasks && p.at > 0)
       rt.perTask[size_t(p.task)].push_back(p);
@@ -190,6 +208,8 @@ Result runSerial(const std::vector<std::function<void()>>& tasks, bool record) {
   rt.events.assign(tasks.size(), 0);
   rt.perTask.assign(tasks.size(), {});
   rt.nextPre.assign(tasks.size(), 0);
+  rt.quantumLeft.assign(tasks.size(), 0);
+  rt.giveBackTo.assign(tasks.size(), -1);
   rt.reports = &reports;
   rt.record = record;
   rt.parked = false;
